@@ -39,6 +39,10 @@ type caseC03 struct {
 	// affine: 1 02||X, 2 03||X, 3 04||X||Y, 4 02||Y, 5 02||Z (coordinates decoder: X||Y). What the receiver holds must not
 	// influence what the input means.
 	FromRaw int `json:"from_raw,omitempty"`
+	// PrevData: right before the decode under test, this (valid) encoding is decoded into another object. Data is then a CHECKSUM
+	// TWIN of it (gen/twins.go: same length, equal under the CRC family and the xor folds, or under the additive checksums),
+	// on the curve or not: a verdict or a root remembered under a checksum of the input must not be handed to the twin.
+	PrevData string `json:"prev_data,omitempty"`
 }
 
 var (
@@ -255,6 +259,30 @@ var c03 = gen.Register(&gen.Check[caseC03]{
 			}
 			data = data[1:]
 		}
+		if c.Decoder != "coordinates" && gen.Chance(t, "twinOfValid", 1, 10) {
+			enc := ref.Compress(randomPoint(t))
+			if gen.Chance(t, "twinUncompressed", 1, 4) {
+				enc = ref.Uncompressed(randomPoint(t))
+			}
+			if len(enc) > 1 {
+				tw := gen.CRCTwins(enc, 1, len(enc), 40)
+				if tk := gen.Pick(t, "twinKind", 3); tk == 1 {
+					tw = gen.CRCTwins(enc[1:33], 0, 32, 40) // (a checksum over the abscissa alone)
+					for i := range tw {
+						tw[i] = append(append([]byte{enc[0]}, tw[i]...), enc[33:]...)
+					}
+				} else if tk == 2 {
+					tw = gen.AdditiveTwins(enc[1:], 30)
+					for i := range tw {
+						tw[i] = append([]byte{enc[0]}, tw[i]...)
+					}
+				}
+				if len(tw) > 0 {
+					data, kind = tw[gen.Pick(t, "twinIdx", len(tw))], "checksum-twin-of-valid"
+					c.PrevData, c.Kind = hex.EncodeToString(enc), kind
+				}
+			}
+		}
 		c.Data = hex.EncodeToString(data)
 		if c.Decoder == "hex" {
 			txt := c.Data
@@ -468,6 +496,12 @@ func c03Once(c caseC03, o *gen.Obs) error {
 		return nil
 	}
 	data := gen.HexBytes(c.Data)
+	if c.PrevData != "" {
+		o.Class("after-checksum-twin")
+		if perr := secp256k1.NewElement().Decode(gen.HexBytes(c.PrevData)); perr != nil {
+			return gen.Fail("Decode[decode]/rejects-valid", "the valid encoding %s was rejected: %v", c.PrevData, perr)
+		}
+	}
 	if c.FromRaw > 0 {
 		if !prior.RawKnown {
 			o.Class("skipped:raw-coordinates-unknown")
